@@ -110,7 +110,8 @@ def cleanup_drops_guard(body, call, guard_local):
                 return False, "cleanup path reaches resume at bb%d without dropping the lock guard" % b
             continue
         if k == "drop":
-            d = dropped or (t["place"]["local"] == guard_local and not t["place"]["proj"])
+            gl = guard_local if isinstance(guard_local, (set, list, tuple)) else (guard_local,)
+            d = dropped or (t["place"]["local"] in gl and not t["place"]["proj"])
             stack.append((t["target"], d))
             continue
         if k == "switch":
@@ -307,7 +308,71 @@ def rule_u7(ctx, facts):
     return n
 
 
+def rule_u8(ctx, facts):
+    """unwinding out of a caller-supplied closure has no effect on the map: on the cleanup path from the closure call to `resume` nothing
+    is retired, freed or written to shared storage -- neither by a call nor by dropping a value whose `Drop` impl does so (a scope guard
+    that retires the old value at scope end also retires it when the closure panics, while the value is still installed)"""
+    from .anchors import anchors, is_shared_write
+    an = anchors(facts)
+    cg = callgraph(facts)
+
+    def effectful(bid, _memo={}):
+        key = (id(facts), bid)
+        if key in _memo:
+            return _memo[key]
+        hit = None
+        for rid in cg.reachable(bid):
+            rb = facts.by_id.get(rid)
+            if rb is None:
+                continue
+            for c in rb.calls:
+                if an.is_retire(c) is not None or an.is_free(c) is not None or callee_str(c).endswith(("defer_retire", "Collector::retire")):
+                    hit = "%s (%s at %s)" % (strip_generics(rid), callee_str(c).rsplit("::", 1)[-1], c.span)
+                    break
+            if hit:
+                break
+        _memo[key] = hit
+        return hit
+    drop_impls = {}
+    for b in facts.bodies:
+        if b.impl and b.impl.get("trait") == "std::ops::Drop":
+            e = effectful(b.id)
+            if e:
+                drop_impls[b.impl["self_head"]] = e
+    n = 0
+    for b in facts.bodies:
+        for c in b.calls:
+            if not user_closure_call(c) or b.is_cleanup(c.b):
+                continue
+            t = b.term(c.b)
+            if not isinstance(t.get("unwind"), int):
+                continue
+            n += 1
+            r = reach(b, [Point(t["unwind"], 0)])
+            bad = None
+            for x in b.calls:
+                if x.point in r and (an.is_retire(x) is not None or an.is_free(x) is not None or is_shared_write(x)):
+                    bad = (x.span, "%s is called" % callee_str(x).rsplit("::", 2)[-1])
+                elif x.point in r and x.resolved in facts.by_id and effectful(x.resolved) and not callee_str(x).endswith("mem::drop"):
+                    bad = (x.span, "%s is called, which reaches %s" % (strip_generics(x.resolved), effectful(x.resolved)))
+                elif x.point in r and callee_str(x).endswith("mem::drop") and x.args and op_root(x.args[0]) is not None and \
+                        b.ty(op_root(x.args[0])).get("base") in drop_impls:
+                    bad = (x.span, "a %s is dropped, whose Drop reaches %s" % (b.ty(op_root(x.args[0]))["base"], drop_impls[b.ty(op_root(x.args[0]))["base"]]))
+            for bi in range(len(b.blocks)):
+                tt = b.term(bi)
+                if tt["k"] == "drop" and b.term_point(bi) in r and (tt.get("ty") or {}).get("base") in drop_impls:
+                    bad = (tt["span"], "a %s is dropped, whose Drop reaches %s" % (tt["ty"]["base"], drop_impls[tt["ty"]["base"]]))
+            ctx.inst("U8", b, "unwinding out of the callback at %s" % c.span.split(":", 1)[1], c.span, bad is None,
+                     "the cleanup path retires, frees and writes nothing" if bad is None else
+                     "if the closure called at %s panics, on the unwind path %s (%s): the map is changed although the operation did not take effect"
+                     % (c.span, bad[1], bad[0]))
+    if n < 2:
+        ctx.fail_closed("U8: expected at least the two callback sites of compute_if_present, found %d" % n)
+
+
 def run(ctx, facts):
+    ctx.rule("U8", "unwinding out of a caller-supplied closure retires, frees and writes nothing (no effectful drop glue on the cleanup path)", floor=2)
+    rule_u8(ctx, facts)
     ctx.rule("U7", "state changed around a callback is restored on the unwind path too (no thread-local bracket without a drop guard)", floor=2)
     rule_u7(ctx, facts)
     ctx.rule("U6", "lock acquisitions do not propagate poisoning: no std::sync lock whose LockResult is unwrapped", floor=8)
@@ -336,7 +401,7 @@ def run(ctx, facts):
             if not held:
                 continue
             for r in held:
-                ok, why = cleanup_drops_guard(b, c, r.guard)
+                ok, why = cleanup_drops_guard(b, c, tuple(getattr(r, "owners", None) or [r.guard]))       # whichever local owns the guard by then
                 if not ok:
                     ctx.inst("U1", b, "callback at %s (guard %s)" % (c.span.split(":", 1)[1], b.local_name(r.guard)), c.span, False,
                              "if the callback panics the bin lock taken at %s stays held: %s" % (r.call.span, why))
